@@ -1,9 +1,743 @@
-import Model.Common
-/-! Oracle handlers for C17 (stub until the property's model exists). -/
-namespace OracleC17
-open Common
+import Model.C17
+/-!
+Oracle handlers for C17.
 
-def handle (_cmd : String) (_f : List String) : String × String × String :=
-  ("unknown-cmd", "-", "-")
+`diff`  : the harness' scheduler actions are replayed on the model LTS (`C17.step`); after every action
+          the model is run to quiescence exactly like the harness waits for it (all enabled `tau`s, automatic
+          delivery to ordinary listeners, one in-flight callback for gated listeners) and the model's
+          snapshot is compared with the implementation's.
+`judge` : the property statement evaluated on the implementation's snapshots alone (no model call).
+-/
+namespace OracleC17
+open Common C17
+
+/-! ### small parsing helpers -/
+
+def splitStr (s sep : String) : List String := s.splitOn sep
+
+def natOf (s : String) : Nat := s.toNat?.getD 0
+
+def dropS (s : String) (n : Nat) : String := String.ofList (s.toList.drop n)
+def takeS (s : String) (n : Nat) : String := String.ofList (s.toList.take n)
+def headC (s : String) : Char := s.toList.headD ' '
+
+def errStr : Option ErrId → String
+  | none => "-"
+  | some k => toString k
+
+def optErr (k : Nat) : Option ErrId := if k = 0 then none else some k
+
+def notifStr : Notif → String
+  | .starting => "S"
+  | .running => "R"
+  | .stopping f => "P" ++ f.code
+  | .terminated f => "T" ++ f.code
+  | .failed f e => "F" ++ f.code ++ toString e
+
+def flag (b : Bool) : String := if b then "1" else "0"
+
+def awaitStr : Option AwaitRes → String
+  | none => "p"
+  | some .ok => "ok"
+  | some (.err none) => "e"
+  | some (.err (some k)) => "e" ++ toString k
+
+/-! ### the scheduler wrapper around the service LTS -/
+
+structure Sim where
+  s : Svc
+  kind : Char
+  gated : List Nat := []
+  busy : List Nat := []
+  removedIds : List Nat := []
+  lastRet : String := "-"
+  wR : Option String := none
+  wT : Option String := none
+  cR : Option String := none
+  cT : Option String := none
+  hS : Option (Option String) := none
+  hX : Option (Option String) := none
+  iterBlocked : Bool := false
+  nIter : Nat := 0
+
+def tauEnabled (s : Svc) : Bool :=
+  match s.pc with
+  | .idle | .inStart | .inRun | .inStop _ | .done => false
+  | _ => true
+
+/-- first listener that can take its next callback now. -/
+def nextDeliver (m : Sim) : Option Nat :=
+  (m.s.lsns.find? fun l => !l.removed && !l.queue.isEmpty && !(m.busy.contains l.id)).map (·.id)
+
+def settleFuel : Nat → Sim → Sim
+  | 0, m => m
+  | fuel + 1, m =>
+    if tauEnabled m.s then settleFuel fuel { m with s := step m.s .tau }
+    else if m.kind == 'i' && m.s.pc == .inRun && m.s.ctxC then
+      settleFuel fuel { m with s := step m.s (.runRet none) }
+    else if m.kind == 't' && m.s.pc == .inRun && !m.iterBlocked then
+      if m.s.ctxC then settleFuel fuel { m with s := step m.s (.runRet none) }
+      else settleFuel fuel { m with iterBlocked := true, nIter := m.nIter + 1 }
+    else match nextDeliver m with
+      | some id =>
+        settleFuel fuel { m with s := step m.s (.deliver id),
+                                 busy := if m.gated.contains id then id :: m.busy else m.busy }
+      | none => m
+
+/-- value a waiter on the running latch obtains when it wakes during this action; `ok?` = either
+`ok` or `e` (the service passed through Running without parking, the waiter races with it). -/
+def runWakeValue (m : Sim) : String :=
+  if m.s.st = .running then "ok"
+  else if m.s.trans.contains .running then "ok?"
+  else awaitStr (awaitRunning m.s)
+
+/-- resolve the `ok?` wildcard with the implementation's value (hint) when that is one of the two. -/
+def resolve (v hint : String) : String :=
+  if v == "ok?" then (if hint == "ok" || hint == "e" then hint else v) else v
+
+structure Hints where
+  wR : String := ""
+  cR : String := ""
+  hS : String := ""
+
+def updateWaiters (m : Sim) (h : Hints) : Sim :=
+  let rv := runWakeValue m
+  let m := if m.s.runClosed > 0 then
+      { m with wR := m.wR <|> some (resolve rv h.wR), cR := m.cR <|> some (resolve rv h.cR),
+               hS := match m.hS with
+                 | some none => some (some (resolve rv h.hS))
+                 | x => x }
+    else m
+  if m.s.termClosed > 0 then
+    let tv := awaitStr (awaitTerminated m.s)
+    { m with wT := m.wT <|> some tv, cT := m.cT <|> some tv,
+             hX := match m.hX with
+               | some none => some (some tv)
+               | x => x }
+  else m
+
+def applyAction (m : Sim) (a : String) : Sim :=
+  let m := { m with lastRet := "-" }
+  let k := natOf (dropS a 1)
+  if a == "S" then
+    { m with lastRet := if startAsyncOk m.s then "ok" else "e", s := step m.s .startAsync }
+  else if a == "SA" then
+    if startAsyncOk m.s then { m with hS := some none, s := step m.s .startAsync }
+    else { m with hS := some (some "e") }
+  else if a == "X" then { m with s := step m.s .stopAsync }
+  else if a == "XA" then { m with hX := some none, s := step m.s .stopAsync }
+  else if a == "P" then { m with s := step m.s .parentCancel }
+  else if a == "W" then { m with cR := m.cR <|> some "c", cT := m.cT <|> some "c" }
+  else match headC a with
+    | 's' => { m with s := step m.s (.startRet (optErr k)) }
+    | 'r' => { m with s := step m.s (.runRet (optErr k)) }
+    | 'p' => { m with s := step m.s (.stopRet (optErr k)) }
+    | 'i' =>
+      if m.iterBlocked then
+        let m := { m with iterBlocked := false }
+        if k = 0 then m else { m with s := step m.s (.runRet (some k)), iterBlocked := true }
+      else m
+    | 'L' => { m with s := step m.s .addListener }
+    | 'G' => { m with gated := m.s.nextL :: m.gated, s := step m.s .addListener }
+    | 'R' => { m with s := step m.s (.removeListener k), removedIds := k :: m.removedIds }
+    | 'D' => { m with busy := m.busy.filter (· != k) }
+    | _ => m
+
+def callStr (kind : Char) : Call → List String
+  | .start c => ["s" ++ flag c]
+  | .run c => if kind == 'b' then ["r" ++ flag c] else []
+  | .stop c f => ["p" ++ flag c ++ ":" ++ errStr f]
+
+def callsStr (m : Sim) : String :=
+  let pre := m.s.calls.filter (fun c => match c with | .stop .. => false | _ => true)
+  let post := m.s.calls.filter (fun c => match c with | .stop .. => true | _ => false)
+  let l := pre.flatMap (callStr m.kind) ++ List.replicate m.nIter "i0" ++ post.flatMap (callStr m.kind)
+  if l.isEmpty then "-" else ",".intercalate l
+
+def lsnStr (m : Sim) (id : Nat) : String :=
+  let k := (if m.gated.contains id then "g" else "u") ++ (if m.removedIds.contains id then "x" else "")
+  let lg := match m.s.lsns.find? (·.id == id) with
+    | some l => if l.seen.isEmpty then "-" else ",".intercalate (l.seen.map notifStr)
+    | none => "-"
+  toString id ++ k ++ ":" ++ lg
+
+def optStr : Option String → String
+  | none => "p"
+  | some v => v
+
+def helperStr : Option (Option String) → String
+  | none => "-"
+  | some none => "p"
+  | some (some v) => v
+
+def snapshot (m : Sim) : String :=
+  let ctx := if !m.s.started then "n" else flag m.s.ctxC
+  let aR := if m.wR.isSome then awaitStr (awaitRunning m.s) else "p"
+  let aT := if m.wT.isSome then awaitStr (awaitTerminated m.s) else "p"
+  let ls := (List.range m.s.nextL).map (lsnStr m)
+  ";".intercalate [m.lastRet, m.s.st.code, errStr m.s.failure, ctx, callsStr m,
+    optStr m.wR, optStr m.wT, optStr m.cR, optStr m.cT, aR, aT, helperStr m.hS, helperStr m.hX,
+    "/".intercalate ls, if m.s.bad.isEmpty then "-" else "model-bad"]
+
+def initSim (cfg : String) : Sim :=
+  let c := cfg.toList
+  let b := fun (i : Nat) => c.getD i '0' == '1'
+  let kind := c.headD 'b'
+  let s := init (b 1) (if kind == 'b' then b 2 else true) (b 3)
+  { s := step s .addListener, kind }
+
+structure Snap where
+  ret : String
+  st : String
+  fail : String
+  ctx : String
+  calls : List String
+  wR : String
+  wT : String
+  cR : String
+  cT : String
+  aR : String
+  aT : String
+  hS : String
+  hX : String
+  lsns : List (String × List String)   -- (header like "1gx", log)
+  bad : String
+  raw : String
+
+def listOf (s : String) : List String := if s == "-" || s == "" then [] else s.splitOn ","
+
+def parseSnap (raw : String) : Option Snap :=
+  match raw.splitOn ";" with
+  | [ret, st, fail, ctx, calls, wR, wT, cR, cT, aR, aT, hS, hX, ls, bad] =>
+    let lsns := (ls.splitOn "/").map fun x =>
+      match x.splitOn ":" with
+      | [h, lg] => (h, listOf lg)
+      | _ => (x, [])
+    some { ret, st, fail, ctx, calls := listOf calls, wR, wT, cR, cT, aR, aT, hS, hX, lsns, bad, raw }
+  | _ => none
+
+/-- replay on the model; returns the model's snapshots. -/
+def simulate (cfg : String) (acts : List String) (impl : List Snap) : List String :=
+  let m0 := updateWaiters (settleFuel 64 (initSim cfg)) {}
+  let rec go (m : Sim) (acts : List String) (impl : List Snap) (acc : List String) : List String :=
+    match acts with
+    | [] => acc.reverse
+    | a :: rest =>
+      let h : Hints := match impl with
+        | sn :: _ => { wR := sn.wR, cR := sn.cR, hS := sn.hS }
+        | [] => {}
+      let m := updateWaiters (settleFuel 64 (applyAction m a)) h
+      go m rest impl.tail (snapshot m :: acc)
+  go m0 acts impl.tail [snapshot m0]
+
+/-! ### judge: the property statement on the implementation's own snapshots -/
+
+def edgeOf (entry : String) : Option (String × String) :=
+  match entry.toList with
+  | ['S'] => some ("N", "S")
+  | ['R'] => some ("S", "R")
+  | 'P' :: f :: _ => some (String.singleton f, "P")
+  | 'T' :: f :: _ => some (String.singleton f, "T")
+  | 'F' :: f :: _ => some (String.singleton f, "F")
+  | _ => none
+
+/-- edges the statement allows (written from the property text). -/
+def allowedEdges : List (String × String) :=
+  [("N", "S"), ("S", "R"), ("R", "P"), ("S", "P"), ("P", "T"), ("S", "F"), ("P", "F"), ("N", "T")]
+
+def isPrefixOf (a b : List String) : Bool := a == b.take a.length
+
+def chainOk : String → List String → Bool
+  | _, [] => true
+  | cur, e :: es =>
+    match edgeOf e with
+    | some (f, t) => f == cur && allowedEdges.contains (f, t) && chainOk t es
+    | none => false
+
+def lastTo (log : List String) : String :=
+  match log.getLast? with
+  | some e => (edgeOf e).map (·.2) |>.getD "?"
+  | none => "N"
+
+def fnName (c : String) : String := takeS c 1
+
+def judgeSvc (cfg : String) (acts : List String) (snaps : List Snap) : List String := Id.run do
+  let mut bad : List String := []
+  let c := cfg.toList
+  let kind := c.headD 'b'
+  let hasStart := c.getD 1 '0' == '1'
+  let hasStop := c.getD 3 '0' == '1'
+  let add := fun (l : List String) (k : String) => if l.contains k then l else l ++ [k]
+  let some last := snaps.getLast? | return ["no-snapshot"]
+  if snaps.length != acts.length + 1 then return ["snapshot-count"]
+  -- walk over the steps
+  let mut prev : Option Snap := none
+  let mut errsReleased : List String := []
+  let mut startRetNil := false
+  let mut wCancelled := false
+  let mut regAt : List (Nat × Nat) := []      -- listener id ↦ primary log length at registration
+  let mut released : List Nat := []           -- one entry per executed D<k>
+  let mut nextId := 1
+  let mut i := 0
+  for sn in snaps do
+    let a := if i = 0 then "" else acts.getD (i - 1) ""
+    i := i + 1
+    let l0 := (sn.lsns.headD ("", [])).2
+    -- scheduler bookkeeping derived from the action (inputs only)
+    if a == "W" then wCancelled := true
+    if a == "s0" then startRetNil := true
+    if a.length == 2 && "srpi".toList.contains (headC a) && dropS a 1 != "0" then
+      errsReleased := errsReleased ++ [dropS a 1]
+    if a == "L" || a == "G" then
+      regAt := regAt ++ [(nextId, match prev with | some p => (p.lsns.headD ("", [])).2.length | none => 0)]
+      nextId := nextId + 1
+    if headC a == 'D' then released := natOf (dropS a 1) :: released
+    -- markers of the harness: re-entrant callback, stuck wait
+    if sn.bad != "-" then bad := add bad ("harness-flag:" ++ sn.bad)
+    -- transitions: the primary listener saw a legal chain from New ending in the current state
+    if !chainOk "N" l0 then bad := add bad "illegal-edge-or-broken-chain"
+    if lastTo l0 != sn.st then bad := add bad "state-not-last-transition"
+    match prev with
+    | some p => if !isPrefixOf (p.lsns.headD ("", [])).2 l0 then bad := add bad "transition-log-rewritten"
+    | none => pure ()
+    -- StartAsync succeeds exactly from New
+    if a == "S" then
+      match prev with
+      | some p => if (sn.ret == "ok") != (p.st == "N") then bad := add bad "startasync-result"
+      | none => pure ()
+    -- functions: at most once each, in order start, run, stop
+    let fns := (sn.calls.map fnName).filter (· != "i")
+    if !([[], ["s"], ["s", "r"], ["s", "p"], ["s", "r", "p"], ["r"], ["r", "p"], ["p"]].contains fns) then bad := add bad "fn-order-or-repeat"
+    -- stop function only after a successful start, with the context already cancelled
+    for cl in sn.calls do
+      if fnName cl == "p" then
+        if hasStart && !startRetNil then bad := add bad "stop-without-successful-start"
+        if !l0.contains "S" then bad := add bad "stop-without-start"
+        if takeS (dropS cl 1) 1 != "1" then bad := add bad "ctx-not-cancelled-at-stop"
+    -- waiters are released exactly when the state is reached or can no longer be reached
+    let pastStarting := sn.st != "N" && sn.st != "S"
+    let term := sn.st == "T" || sn.st == "F"
+    if (sn.wR != "p") != pastStarting then bad := add bad "running-waiter-release"
+    if (sn.wT != "p") != term then bad := add bad "terminated-waiter-release"
+    if (sn.cR != "p") != (pastStarting || wCancelled) then bad := add bad "running-waiter-release-ctx"
+    if (sn.cT != "p") != (term || wCancelled) then bad := add bad "terminated-waiter-release-ctx"
+    if sn.wR == "ok" && !l0.contains "R" then bad := add bad "await-running-nil-without-running"
+    if pastStarting && (sn.aR == "ok") != (sn.st == "R") then bad := add bad "await-running-result"
+    if term && (sn.aT == "ok") != (sn.st == "T") then bad := add bad "await-terminated-result"
+    if term && (sn.wT == "ok") != (sn.st == "T") then bad := add bad "await-terminated-result"
+    if sn.hS == "ok" && !l0.contains "R" then bad := add bad "start-and-await-nil-without-running"
+    if sn.hX != "-" && (sn.hX != "p") != term then bad := add bad "stop-and-await-release"
+    if sn.hX == "ok" && sn.st != "T" then bad := add bad "stop-and-await-nil-without-terminated"
+    -- failure cause = first error returned
+    if sn.st == "F" then
+      if some sn.fail != errsReleased.head? then bad := add bad "failure-not-first-error"
+      if sn.wT != "e" ++ sn.fail || sn.aT != "e" ++ sn.fail then bad := add bad "await-error-without-cause"
+    else
+      if sn.fail != "-" then bad := add bad "failure-set-in-non-failed-state"
+      if sn.st == "T" && !errsReleased.isEmpty then bad := add bad "terminated-despite-error"
+    -- listeners: every transition after registration, once, in order
+    for (h, lg) in sn.lsns.drop 1 do
+      let id := natOf (String.ofList (h.toList.takeWhile Char.isDigit))
+      let gated := h.toList.contains 'g'
+      let removed := h.toList.contains 'x'
+      let r := (regAt.find? (·.1 == id)).map (·.2) |>.getD 0
+      let expect := l0.drop r
+      if !isPrefixOf lg expect then bad := add bad "listener-wrong-or-reordered"
+      else if !removed then
+        if !gated && lg.length != expect.length then bad := add bad "listener-missed-transition"
+        if gated then
+          let rel := (released.filter (· == id)).length
+          if lg.length != min (rel + 1) expect.length then bad := add bad "gated-listener-count"
+    prev := some sn
+  -- at the end: stop function ran iff starting succeeded (once the service is terminal)
+  let started := (last.lsns.headD ("", [])).2.contains "S"
+  let startSucceeded := started && (if hasStart then startRetNil else true)
+  let stopRan := (last.calls.map fnName).contains "p"
+  if (last.st == "T" || last.st == "F") && hasStop && startSucceeded && !stopRan then
+    bad := add bad "stop-not-run-after-successful-start"
+  if kind == 'b' && !hasStop && stopRan then bad := add bad "nil-stop-ran"
+  return bad
+
+def handleSvc (f : List String) : String × String × String :=
+  match f with
+  | [cfg, actsS, obs] =>
+    let acts := if actsS == "-" then [] else actsS.splitOn " "
+    let raws := obs.splitOn " | "
+    match raws.mapM parseSnap with
+    | none => ("bad-snapshot", "-", "-")
+    | some snaps =>
+      let model := simulate cfg acts snaps
+      let diff :=
+        if model == raws then "-"
+        else
+          let idx := (List.zip model raws).findIdx (fun p => p.1 != p.2)
+          s!"step={idx} model={model.getD idx "?"}"
+      let j := judgeSvc cfg acts snaps
+      let judge := if j.isEmpty then "-" else ",".intercalate j
+      let last := snaps.getLast?
+      let started := acts.contains "S" || acts.contains "SA"
+      let nerr := (acts.filter fun a => a.length == 2 && "srpi".toList.contains (headC a) && dropS a 1 != "0").length
+      let tags := s!"k=svc cfg={cfg} started={flag started} final={(last.map (·.st)).getD "?"} len={min acts.length 8} lsn={(last.map (·.lsns.length)).getD 0} errs={min nerr 2}"
+      (diff, judge, tags)
+  | _ => ("bad-fields", "-", "-")
+
+/-! ### manager -/
+
+structure MSim where
+  svcs : List Sim
+  delivered : List Nat
+  mgr : Mgr
+  gated : List Nat := []
+  busy : List Nat := []
+  removedIds : List Nat := []
+  lastRet : String := "-"
+  lastDeliv : String := "-"
+  wH : Option String := none
+  wS : Option String := none
+
+def mnotifStr : MNotif → String
+  | .healthy => "H"
+  | .stopped => "Z"
+  | .failure i => "F" ++ toString i
+
+def mNextDeliver (m : MSim) : Option Nat :=
+  (m.mgr.lsns.find? fun l => !l.removed && !l.queue.isEmpty && !(m.busy.contains l.id)).map (·.id)
+
+def mSettleL : Nat → MSim → MSim
+  | 0, m => m
+  | fuel + 1, m =>
+    match mNextDeliver m with
+    | some id =>
+      let mg := Mgr.step m.mgr (.deliver id)
+      let bz := if m.gated.contains id then id :: m.busy else m.busy
+      mSettleL fuel { m with mgr := mg, busy := bz }
+    | none => m
+
+def mSettle (m : MSim) : MSim :=
+  let m := { m with svcs := m.svcs.map fun s => updateWaiters (settleFuel 64 s) {} }
+  let m := mSettleL 32 m
+  let m := if m.mgr.healthyCloses > 0 && m.wH.isNone
+    then { m with wH := some (if m.mgr.awaitHealthy == some true then "ok" else "e") } else m
+  if m.mgr.stoppedCloses > 0 && m.wS.isNone then { m with wS := some "ok" } else m
+
+def modifyAt {α} (l : List α) (i : Nat) (f : α → α) : List α :=
+  l.mapIdx fun j x => if j = i then f x else x
+
+/-- token → (kind, index, k) -/
+def parseMAct (a : String) : String × Nat × Nat :=
+  if a == "MS" || a == "MX" || a == "P" || a == "ML" || a == "MG" then (a, 0, 0)
+  else if (takeS a 2) == "MR" || (takeS a 2) == "MD" then (takeS a 2, natOf (dropS a 2), 0)
+  else
+    match (dropS a 1).splitOn ":" with
+    | [i, k] => (takeS a 1, natOf i, natOf k)
+    | [i] => (takeS a 1, natOf i, 0)
+    | _ => ("?", 0, 0)
+
+/-- `Manager.StartAsync`: start services in order, stop at the first error. -/
+def startAll : List Sim → List Sim × Bool
+  | [] => ([], true)
+  | s :: rest =>
+    if startAsyncOk s.s then
+      let (r, ok) := startAll rest
+      ({ s with s := step s.s .startAsync } :: r, ok)
+    else (s :: rest, false)
+
+def mApply (m : MSim) (a : String) : MSim :=
+  let m := { m with lastRet := "-", lastDeliv := "-" }
+  let (kind, i, k) := parseMAct a
+  let onSvc := fun (f : Sim → Sim) => { m with svcs := modifyAt m.svcs i f }
+  match kind with
+  | "MS" =>
+    let (ss, ok) := startAll m.svcs
+    { m with svcs := ss, lastRet := if ok then "ok" else "e" }
+  | "MX" => { m with svcs := m.svcs.map fun s => { s with s := step s.s .stopAsync } }
+  | "P" => { m with svcs := m.svcs.map fun s => { s with s := step s.s .parentCancel } }
+  | "ML" => { m with mgr := m.mgr.step .addListener }
+  | "MG" => { m with gated := m.mgr.nextL :: m.gated, mgr := m.mgr.step .addListener }
+  | "MR" => { m with mgr := m.mgr.step (.removeListener i), removedIds := i :: m.removedIds }
+  | "MD" => { m with busy := m.busy.filter (· != i) }
+  | "S" =>
+    match m.svcs[i]? with
+    | some s => { onSvc (fun s => { s with s := step s.s .startAsync }) with lastRet := if startAsyncOk s.s then "ok" else "e" }
+    | none => m
+  | "X" => onSvc fun s => { s with s := step s.s .stopAsync }
+  | "s" => onSvc fun s => { s with s := step s.s (.startRet (optErr k)) }
+  | "r" => onSvc fun s => { s with s := step s.s (.runRet (optErr k)) }
+  | "p" => onSvc fun s => { s with s := step s.s (.stopRet (optErr k)) }
+  | "d" =>
+    match m.svcs[i]? with
+    | some s =>
+      let seen := ((s.s.lsns.find? (·.id == 1)).map (·.seen)).getD []
+      match seen[m.delivered.getD i 0]? with
+      | some n => { m with mgr := m.mgr.step (.changed i n), delivered := modifyAt m.delivered i (· + 1),
+                           lastDeliv := notifStr n }
+      | none => m
+    | none => m
+  | _ => m
+
+def byStateStr (m : Mgr) : String :=
+  let parts := SState.all.filterMap fun st =>
+    let l := m.byState st
+    if l.isEmpty then none else some (st.code ++ ":" ++ ",".intercalate (l.map toString))
+  if parts.isEmpty then "-" else "/".intercalate parts
+
+def mlsnStr (m : MSim) (id : Nat) : String :=
+  let k := (if m.gated.contains id then "g" else "u") ++ (if m.removedIds.contains id then "x" else "")
+  let lg := match m.mgr.lsns.find? (·.id == id) with
+    | some l => if l.seen.isEmpty then "-" else ",".intercalate (l.seen.map mnotifStr)
+    | none => "-"
+  toString id ++ k ++ ":" ++ lg
+
+def mSnapshot (m : MSim) : String :=
+  let pend := (List.zip m.svcs m.delivered).map fun (s, d) =>
+    toString ((((s.s.lsns.find? (·.id == 1)).map (·.seen.length)).getD 0) - d)
+  let aH := if m.wH.isSome then (if m.mgr.awaitHealthy == some true then "ok" else "e") else "p"
+  let aS := if m.wS.isSome then "ok" else "p"
+  let svcBad := m.svcs.any fun s => !s.s.bad.isEmpty
+  ";".intercalate [m.lastRet, m.lastDeliv, flag (m.mgr.state == .healthy), flag (m.mgr.state == .stopped),
+    byStateStr m.mgr, String.join (m.svcs.map (·.s.st.code)), ",".intercalate pend,
+    optStr m.wH, optStr m.wS, aH, aS, "/".intercalate ((List.range m.mgr.nextL).map (mlsnStr m)),
+    if m.mgr.bad.isEmpty && !svcBad then "-" else "model-bad"]
+
+def initMSim (cfgs : List String) : MSim :=
+  let svcs := cfgs.map fun c =>
+    let s := initSim ("b" ++ c)
+    { s with s := step s.s .addListener }     -- listener 1 = the manager's (proxied) listener
+  { svcs, delivered := cfgs.map fun _ => 0, mgr := (Mgr.init cfgs.length).step .addListener }
+
+def mSimulate (cfgs : List String) (acts : List String) : List String :=
+  let m0 := mSettle (initMSim cfgs)
+  let rec go (m : MSim) (acts : List String) (acc : List String) : List String :=
+    match acts with
+    | [] => acc.reverse
+    | a :: rest =>
+      let m := mSettle (mApply m a)
+      go m rest (mSnapshot m :: acc)
+  go m0 acts [mSnapshot m0]
+
+structure MSnap where
+  ret : String
+  deliv : String
+  h : String
+  z : String
+  by_ : List (String × List String)
+  sts : List Char
+  pend : List String
+  wH : String
+  wS : String
+  aH : String
+  aS : String
+  lsns : List (String × List String)
+  bad : String
+
+def parseMSnap (raw : String) : Option MSnap :=
+  match raw.splitOn ";" with
+  | [ret, deliv, h, z, by_, sts, pend, wH, wS, aH, aS, ls, bad] =>
+    let lsns := (ls.splitOn "/").map fun x =>
+      match x.splitOn ":" with
+      | [hd, lg] => (hd, listOf lg)
+      | _ => (x, [])
+    let bys := if by_ == "-" then [] else (by_.splitOn "/").map fun x =>
+      match x.splitOn ":" with
+      | [st, l] => (st, listOf l)
+      | _ => (x, [])
+    some { ret, deliv, h, z, by_ := bys, sts := sts.toList, pend := pend.splitOn ",", wH, wS, aH, aS, lsns, bad }
+  | _ => none
+
+def countOf (l : List String) (x : String) : Nat := (l.filter (· == x)).length
+
+def judgeMgr (cfgs : List String) (acts : List String) (snaps : List MSnap) : List String := Id.run do
+  let n := cfgs.length
+  let mut bad : List String := []
+  let add := fun (l : List String) (k : String) => if l.contains k then l else l ++ [k]
+  if snaps.length != acts.length + 1 then return ["snapshot-count"]
+  let mut views : List String := List.replicate n "N"     -- last notification handed to the manager, per service
+  let mut everHealthy := false
+  let mut prev : Option MSnap := none
+  let mut regAt : List (Nat × Nat) := []
+  let mut released : List Nat := []
+  let mut nextId := 1
+  let mut i := 0
+  for sn in snaps do
+    let a := if i = 0 then "" else acts.getD (i - 1) ""
+    i := i + 1
+    let (kind, idx, _) := parseMAct a
+    let l0 := (sn.lsns.headD ("", [])).2
+    if kind == "d" then
+      match edgeOf sn.deliv with
+      | some (f, t) =>
+        if views.getD idx "?" != f then bad := add bad "harness-delivered-out-of-order"
+        views := modifyAt views idx fun _ => t
+      | none => bad := add bad "harness-no-delivery"
+    if kind == "ML" || kind == "MG" then
+      regAt := regAt ++ [(nextId, match prev with | some p => (p.lsns.headD ("", [])).2.length | none => 0)]
+      nextId := nextId + 1
+    if kind == "MD" then released := idx :: released
+    if sn.bad != "-" then bad := add bad ("harness-flag:" ++ sn.bad)
+    let allRunning := views.all (· == "R")
+    let allTerminal := views.all (fun v => v == "T" || v == "F")
+    if allRunning then everHealthy := true
+    -- healthy exactly while all services run; stopped exactly when all are terminal
+    if (sn.h == "1") != allRunning then bad := add bad "healthy-iff-all-running"
+    if (sn.z == "1") != allTerminal then bad := add bad "stopped-iff-all-terminal"
+    -- once every notification has been handed over the manager's view is the services' real state
+    if sn.pend.all (· == "0") then
+      if (sn.h == "1") != sn.sts.all (· == 'R') then bad := add bad "healthy-vs-real-states"
+      if (sn.z == "1") != sn.sts.all (fun c => c == 'T' || c == 'F') then bad := add bad "stopped-vs-real-states"
+    -- ServicesByState partitions the services according to the notifications received
+    for j in List.range n do
+      let holders := sn.by_.filter fun (_, l) => l.contains (toString j)
+      match holders with
+      | [(st, l)] => if st != views.getD j "?" || countOf l (toString j) != 1 then bad := add bad "services-by-state"
+      | _ => bad := add bad "services-by-state"
+      -- each failed service reported exactly once
+      let want := if views.getD j "?" == "F" then 1 else 0
+      if countOf l0 ("F" ++ toString j) != want then bad := add bad "failure-reported-once"
+    if countOf l0 "H" != (if everHealthy then 1 else 0) then bad := add bad "healthy-notified-once"
+    if countOf l0 "Z" != (if allTerminal then 1 else 0) then bad := add bad "stopped-notified-once"
+    match prev with
+    | some p => if !isPrefixOf (p.lsns.headD ("", [])).2 l0 then bad := add bad "manager-log-rewritten"
+    | none => pure ()
+    -- waiters
+    let impossible := views.any fun v => v == "P" || v == "T" || v == "F"
+    if (sn.wH != "p") != (everHealthy || impossible) then bad := add bad "await-healthy-release"
+    if sn.wH == "ok" && !everHealthy then bad := add bad "await-healthy-nil-without-healthy"
+    if sn.wH != "p" && (sn.aH == "ok") != allRunning then bad := add bad "await-healthy-result"
+    if (sn.wS != "p") != allTerminal then bad := add bad "await-stopped-release"
+    if sn.wS != "p" && sn.wS != "ok" then bad := add bad "await-stopped-result"
+    -- Manager.StartAsync succeeds iff every service was New
+    if kind == "MS" then
+      match prev with
+      | some p => if (sn.ret == "ok") != p.sts.all (· == 'N') then bad := add bad "manager-start-result"
+      | none => pure ()
+    -- further manager listeners see what the primary sees, from their registration on
+    for (h, lg) in sn.lsns.drop 1 do
+      let id := natOf (String.ofList (h.toList.takeWhile Char.isDigit))
+      let gated := h.toList.contains 'g'
+      let removed := h.toList.contains 'x'
+      let r := (regAt.find? (·.1 == id)).map (·.2) |>.getD 0
+      let expect := l0.drop r
+      if !isPrefixOf lg expect then bad := add bad "manager-listener-wrong-or-reordered"
+      else if !removed then
+        if !gated && lg.length != expect.length then bad := add bad "manager-listener-missed"
+        if gated then
+          let rel := (released.filter (· == id)).length
+          if lg.length != min (rel + 1) expect.length then bad := add bad "gated-manager-listener-count"
+    prev := some sn
+  return bad
+
+def handleMgr (f : List String) : String × String × String :=
+  match f with
+  | [cfgS, actsS, obs] =>
+    let cfgs := cfgS.splitOn ","
+    let acts := if actsS == "-" then [] else actsS.splitOn " "
+    let raws := obs.splitOn " | "
+    match raws.mapM parseMSnap with
+    | none => ("bad-snapshot", "-", "-")
+    | some snaps =>
+      let model := mSimulate cfgs acts
+      let diff :=
+        if model == raws then "-"
+        else
+          let idx := (List.zip model raws).findIdx (fun p => p.1 != p.2)
+          s!"step={idx} model={model.getD idx "?"}"
+      let j := judgeMgr cfgs acts snaps
+      let judge := if j.isEmpty then "-" else ",".intercalate j
+      let last := snaps.getLast?
+      let nd := (acts.filter (fun a => headC a == 'd')).length
+      let l0 := (last.map fun s => (s.lsns.headD ("", [])).2).getD []
+      let tags := s!"k=mgr n={cfgs.length} deliveries={min nd 9} healthy={flag (l0.contains "H")} stopped={flag (l0.contains "Z")} failures={(l0.filter (fun x => headC x == 'F')).length} mlsn={(last.map (·.lsns.length)).getD 0}"
+      (diff, judge, tags)
+  | _ => ("bad-fields", "-", "-")
+
+def handleMgrNew (f : List String) : String × String × String :=
+  match f with
+  | [pre, res] =>
+    let sts := if pre == "-" then [] else pre.toList
+    let model := if !sts.isEmpty && sts.all (· == 'N') then "ok" else "e"
+    -- statement: a manager is built only from at least one service, all of them New
+    (if model == res then "-" else "model=" ++ model, "-", s!"k=mgrnew n={sts.length}")
+  | _ => ("bad-fields", "-", "-")
+
+/-! ### failure watcher -/
+
+def fwErrsOf (acts : List String) (i : Nat) : List String :=
+  acts.filterMap fun a =>
+    let (kind, idx, k) := parseMAct a
+    if (kind == "s" || kind == "r" || kind == "p") && idx == i && k != 0 then some (toString k) else none
+
+def handleFW (f : List String) : String × String × String :=
+  match f with
+  | [cfg, actsS, obs] =>
+    let n := natOf (dropS cfg 2)
+    let acts := if actsS == "-" then [] else actsS.splitOn " "
+    let raws := obs.splitOn " | "
+    -- model replay
+    let sims0 := (List.range n).map fun _ => updateWaiters (settleFuel 64 (initSim "b111")) {}
+    let render := fun (w : FW) (sims : List Sim) =>
+      (if w.forwarded.isEmpty then "-" else ",".intercalate (w.forwarded.map fun p => toString p.2)) ++ ";" ++
+        flag (w.chanCloses > 0) ++ ";" ++ toString w.panics ++ ";" ++ String.join (sims.map (·.s.st.code))
+    let rec go (w : FW) (sims : List Sim) (acts : List String) (acc : List String) : List String :=
+      match acts with
+      | [] => acc.reverse
+      | a :: rest =>
+        let (kind, i, k) := parseMAct a
+        let was := sims.map (·.s.st)
+        let (w, sims) :=
+          if a == "C" then (w.step .close, sims)
+          else if a == "WS" then (w.step .watch, sims)
+          else
+            let ev : Option Ev := match kind with
+              | "S" => some .startAsync | "X" => some .stopAsync
+              | "s" => some (.startRet (optErr k)) | "r" => some (.runRet (optErr k)) | "p" => some (.stopRet (optErr k))
+              | _ => none
+            match ev with
+            | some ev => (w, modifyAt sims i fun s => updateWaiters (settleFuel 64 { s with s := step s.s ev }) {})
+            | none => (w, sims)
+        -- a service that has just failed runs the watcher's Failed callback (if still registered)
+        let w := (List.zip (List.range n) (List.zip was sims)).foldl (fun w (j, (st0, s)) =>
+          if st0 != .failed && s.s.st == .failed then w.step (.failure j (s.s.failure.getD 0)) else w) w
+        go w sims rest (render w sims :: acc)
+    let model := go {} sims0 acts [render {} sims0]
+    let implNoTo := raws.map fun r => ";".intercalate ((r.splitOn ";").take 4)
+    let diff := if model == implNoTo then "-" else
+      let idx := (List.zip model implNoTo).findIdx (fun p => p.1 != p.2)
+      s!"step={idx} model={model.getD idx "?"}"
+    -- judge: each failure forwarded once (while the watcher is open), nothing else; Close idempotent
+    let j : List String := Id.run do
+      let mut bad : List String := []
+      if raws.any (fun r => (r.splitOn ";").length > 4) then bad := bad ++ ["harness-flag:stuck"]
+      let mut closedAt : Option Nat := none
+      let mut wsAfterClose := 0
+      let mut idx := 0
+      for a in acts do
+        idx := idx + 1
+        if a == "C" && closedAt.isNone then closedAt := some idx
+        if a == "WS" && closedAt.isSome then wsAfterClose := wsAfterClose + 1
+      let snaps := raws.map fun r => r.splitOn ";"
+      let last := snaps.getLast?.getD []
+      let fwd := listOf (last.getD 0 "-")
+      for jx in List.range n do
+        -- step at which service jx is first seen Failed
+        let failedAt := snaps.findIdx fun sn => ((sn.getD 3 "").toList.getD jx '?') == 'F'
+        let failed := failedAt < snaps.length
+        let open_ := match closedAt with | some c => failedAt < c | none => true
+        let mine := fwd.filter fun e => let k := natOf e; 3 * jx + 1 ≤ k && k ≤ 3 * jx + 3
+        let want : List String := if failed && open_ then (fwErrsOf acts jx).take 1 else []
+        if mine != want then bad := bad ++ ["failure-not-forwarded-exactly-once"]
+      if (last.getD 1 "") != flag closedAt.isSome then bad := bad ++ ["chan-closed-iff-close"]
+      if natOf (last.getD 2 "0") != wsAfterClose then bad := bad ++ ["close-or-watch-panicked"]
+      return bad
+    let judge := if j.isEmpty then "-" else ",".intercalate j
+    let nf := (listOf (((raws.getLast?.getD "").splitOn ";").getD 0 "-")).length
+    (diff, judge, s!"k=fw mode={takeS cfg 1} n={n} forwarded={nf} closes={min (countOf acts "C") 2}")
+  | _ => ("bad-fields", "-", "-")
+
+def handle (cmd : String) (f : List String) : String × String × String :=
+  if cmd == "C17.svc" then handleSvc f
+  else if cmd == "C17.mgr" then handleMgr f
+  else if cmd == "C17.mgrnew" then handleMgrNew f
+  else if cmd == "C17.fw" then handleFW f
+  else ("unknown-cmd", "-", "-")
 
 end OracleC17
